@@ -21,6 +21,7 @@ pub fn profiles() -> Vec<(&'static str, GenCfg)> {
     base.plain_choice_text = true;
     base.no_glue_with_tags = true;
     base.choice_tags = true;
+    base.layout_variants = true;
     let mut weave = base.clone();
     weave.tunnels = false;
     weave.functions = false;
@@ -606,6 +607,10 @@ pub fn shrink_cmd(cfg: &Cfg) -> i32 {
     let (p, _) = generate(gc, &mut rng);
     let depth = cfg.get_u64("depth", 5) as usize;
     let paths = cfg.get_u64("paths", 40) as usize;
+    if cfg.get("print").is_some() {
+        println!("{}", render::program(&p));
+        return 0;
+    }
     match shrink(&p, i % 2 == 0, depth, paths) {
         None => {
             println!("program {pname} #{i}: no difference");
